@@ -1,6 +1,6 @@
 (* C13 property theorems.  Nothing but statements, each closed by `exact <lemma>.`, with
    Print Assumptions beneath.  Definitions: C13/Model.v (tables: C13/Gen.v, regenerated). *)
-From Wz Require Import lib.Bytes lib.Utf8 C13.Gen C13.Model C13.Proofs.
+From Wz Require Import lib.Bytes lib.Utf8 C13.Gen C13.Model C13.Proofs C13.Attrs.
 Open Scope N_scope.
 
 (* every byte outside the cookie-octet set is escaped (SP is kept literal inside the quotes) *)
@@ -55,3 +55,14 @@ Theorem C13_attribute_order :
   && (N.of_nat (length attr_order) =? 8) = true.
 Proof. exact attr_names_pinned. Qed.
 Print Assumptions C13_attribute_order.
+
+(* the header carries exactly the requested attributes, canonically spelled, in fixed order:
+   split at ';' as a user agent does, it is the cookie pair followed by exactly the attribute list
+   (attribute values as rendered: no ';' in them - Domain after IDNA, Path after quote, dates, digits) *)
+Theorem C13_attributes_exact : forall k v a,
+  token k = true -> valid_text v = true -> attrs_clean a = true ->
+  exists pair hdr,
+    dump_pair k v = Some pair /\ dump_cookie k v a = Some hdr /\
+    split_semi hdr [] = pair :: attr_pieces a.
+Proof. exact attributes_exact. Qed.
+Print Assumptions C13_attributes_exact.
